@@ -16,10 +16,9 @@ from glue.core.message import (DataUpdateMessage, DataRemoveComponentMessage,
                                ComponentReplacedMessage, DataReorderComponentMessage,
                                ExternallyDerivableComponentsChangedMessage,
                                PixelAlignedDataChangedMessage)
-from glue.core.decorators import clear_cache
 from glue.core.util import split_component_view
 from glue.core.hub import Hub
-from glue.core.subset import Subset, SubsetState, SliceSubsetState
+from glue.core.subset import Subset, SubsetState, SliceSubsetState, clear_mask_caches
 from glue.core.component_id import ComponentIDList
 from glue.core.component_link import ComponentLink, CoordinateComponentLink
 from glue.core.exceptions import IncompatibleAttribute
@@ -1548,13 +1547,13 @@ class Data(BaseCartesianData):
 
             comp._data = data
 
+        # cached masks depend on the values: drop them before anybody is told
+        clear_mask_caches()
+
         # alert hub of the change
         if self.hub is not None:
             msg = NumericalDataChangedMessage(self, components_changed=list(mapping.keys()))
             self.hub.broadcast(msg)
-
-        for subset in self.subsets:
-            clear_cache(subset.subset_state.to_mask)
 
     def update_values_from_data(self, data):
         """
@@ -1620,13 +1619,13 @@ class Data(BaseCartesianData):
         # Update data coordinates
         self.coords = data.coords
 
+        # cached masks depend on the values: drop them before anybody is told
+        clear_mask_caches()
+
         # alert hub of the change
         if self.hub is not None:
             msg = NumericalDataChangedMessage(self)
             self.hub.broadcast(msg)
-
-        for subset in self.subsets:
-            clear_cache(subset.subset_state.to_mask)
 
     # The following are methods for accessing the data in various ways that
     # can be overriden by subclasses that want to improve performance.
